@@ -6,6 +6,7 @@ import Drpc.Tie.C03
   client connection and server functions have the fingerprints the models, theorems and the e2e suite were
   written against (the stream-level functions are tied by Drpc.Tie.C03).
 -/
+set_option maxRecDepth 100000
 namespace Drpc.Tie.Manager
 open Drpc
 
